@@ -35,7 +35,7 @@ pub struct OSig {
     pub formatted: String,
 }
 
-pub trait Subj: Sync {
+pub trait Subj {
     fn label(&self) -> &'static str;
     fn remap_class<'a>(&'a self, class: &str) -> Option<&'a str>;
     fn remap_method<'a>(&'a self, class: &str, method: &str) -> Option<(&'a str, &'a str)>;
